@@ -270,7 +270,10 @@ class Result:
                     "correspondence harness /verif/harness (calls the real crate in-process, feature `verif`)",
                     "hand-written Lean model /verif/lean/AscaVerif/Model (tied to the code by the correspondence suites listed under obligations)"]
         cov = dict(self.coverage)
+        n_corr = int(cov.get("traces_validated_against_impl", 0) or 0)
         cov.update({
+            "programs": max(1, n_corr + int(self.evaluations)),
+            "disagreements_checked": len(self.violations) + len([o for o in self.obligations if o["kind"] == "correspondence" and not o["ok"]]),
             "obligations": len(self.obligations),
             "discharged": len([o for o in self.obligations if o["ok"]]),
             "checker_cmd": checker_cmd,
